@@ -1051,12 +1051,16 @@ class Descriptor(ObjectWithFields):
                                      self.classname(), self.size, len(payload))
             self.size = len(payload)
         d.write('B', 'tag')
-        sizes = []
-        size = self.size
-        while size > 0x7f:
-            sizes.append(size & 0x7f)
+        # the length is written most significant 7 bit group first
+        sizes = [self.size & 0x7f]
+        size = self.size >> 7
+        while size > 0:
+            sizes.insert(0, size & 0x7f)
             size = size >> 7
-        sizes.append(size & 0x7f)
+        # a descriptor that was parsed with a padded length field (e.g. the
+        # common 4 byte form 0x80 0x80 0x80 0xNN) keeps that form
+        while len(sizes) < self.__dict__.get('header_size', 0) - 1:
+            sizes.insert(0, 0)
         while sizes:
             a = sizes.pop(0)
             flag = 0x80 if sizes else 0x00
